@@ -306,11 +306,11 @@ fn embed(core: &[u8], total: usize, pos: u8, fill: u8, foreign: u8) -> Vec<u8> {
 
 pub fn exhaustive(ctx: &Ctx, mode: SubMode) -> Frag {
     let mut frag = ctx.frag("sub-exhaustive");
-    let (bn, bh, tn, th) = if ctx.thorough { (10, 16, 6, 10) } else { (8, 12, 5, 8) };
+    let (bn, bh, tn, th) = if ctx.thorough { (9, 14, 5, 9) } else { (8, 12, 5, 8) };
     // complete iterator runs over embedded haystacks are ~6x the work of a single search
-    let (bn, tn) = if mode.iters && !ctx.thorough { (bn - 2, tn - 1) } else { (bn, tn) };
+    let (bn, tn) = if mode.iters { (bn - 2, tn - 1) } else { (bn, tn) };
     // the union passes of C05/C14/C09 repeat what C03/C04/C08/C12 judge individually
-    let (bn, tn) = if mode.iters && mode.blocks && !ctx.thorough { (bn - 1, tn - 1) } else { (bn, tn) };
+    let (bn, tn) = if mode.iters && mode.blocks { (bn - 1, tn - 1) } else { (bn, tn) };
     // under emulation everything is ~10x slower: shrink by one
     let (bn, bh, tn, th) = if mvcore::cfgs::cfg_emu() { (bn - 1, bh - 1, tn - 1, th - 1) } else { (bn, bh, tn, th) };
     let embed_too = mode.fwd_top || mode.rev_top || mode.iters;
